@@ -560,8 +560,8 @@ def check(ctx):
     try:
         rd_cov = reader_stream(ctx, bd, problems)
     except RuntimeError as e:
-        # the reader's executable side lives in the files that hold its proofs: when one of them no longer checks
-        # (already reported through `broken`) the stream cannot be extracted; the other streams still search
+        # the reader's definitions are kept apart from its proofs (Reader/Defs.v, Reader/BridgeDefs.v), so this should
+        # only happen when the definitions themselves no longer build
         rd_cov = dict(reader_files=0, reader_agree=0, reader_skipped_not_wellformed=0, reader_seed=None, reader_not_run=str(e)[-400:])
         if not broken:
             raise
